@@ -162,6 +162,81 @@ class RefTap(Ref):
         return (("user_fn", "error"), ("error",))
 
 
+class RefReduce(Ref):
+    init = False                 # has an accumulator?
+    extra = ("remember", "user_fn")
+    emits_each = False
+
+    def next(self, st, inp):
+        tr = (("user_fn", "tuple:stored,item"), ("remember", "mapped")) if st else (("remember", "item"),)
+        if self.emits_each:
+            tr = tr + (("emit", "stored"),)
+        return tr, True, False
+
+    def complete(self, st):
+        if self.emits_each:
+            return (("complete",),)
+        return (("emit", "stored"), ("complete",)) if st else (("complete",),)
+
+
+class RefScan(RefReduce):
+    emits_each = True
+
+
+class RefSum(Ref):
+    init = False
+    extra = ("remember", "combine")
+
+    def next(self, st, inp):
+        return ((("combine", "item+stored"), ("remember", "combined")) if st else (("remember", "item"),)), True, False
+
+    def complete(self, st):
+        return (("emit", "stored"), ("complete",)) if st else (("complete",),)
+
+
+class RefSumAndCount(Ref):
+    init = (False, 0)
+    extra = ("remember", "combine")
+
+    def next(self, st, inp):
+        has, n = st
+        return ((("combine", "item+stored"), ("remember", "combined")) if has else (("remember", "item"),)), (True, n + 1), False
+
+    def complete(self, st):
+        has, n = st
+        return (("emit", "tuple:stored,int=%d" % n), ("complete",)) if has else (("complete",),)
+
+
+class RefMin(Ref):
+    init = False
+    inputs = ("lt", "gt")
+    extra = ("remember",)
+    better = "lt"                # the item replaces the stored one iff item < stored
+
+    def next(self, st, inp):
+        if not st:
+            return (("remember", "item"),), True, False
+        if inp[self.better]:
+            return (("remember", "item"),), True, False
+        if not inp["lt"] and not inp["gt"]:
+            # a tie: keeping either of two equal items is the same minimum / maximum
+            return ANY_OF((), (("remember", "item"),)), True, False
+        return (), True, False
+
+    def complete(self, st):
+        return (("emit", "stored"), ("complete",)) if st else (("complete",),)
+
+
+class RefMax(RefMin):
+    better = "gt"
+
+
+class ANY_OF(tuple):
+    """several acceptable traces"""
+    def __new__(cls, *alts):
+        return super().__new__(cls, alts)
+
+
 OPERATORS = {
     "operators::filter::Filter": ("filter", RefFilter),
     "operators::take_while::TakeWhile": ("take_while", RefTakeWhile),
@@ -173,6 +248,12 @@ OPERATORS = {
     "operators::contains::Contains": ("contains", RefContains),
     "operators::map::Map": ("map", RefMap),
     "operators::tap::Tap": ("tap", RefTap),
+    "operators::reduce::Reduce": ("reduce", RefReduce),
+    "operators::scan::Scan": ("scan", RefScan),
+    "operators::sum::Sum": ("sum", RefSum),
+    "operators::sum_and_count::SumAndCount": ("sum_and_count", RefSumAndCount),
+    "operators::min::Min": ("min", RefMin),
+    "operators::max::Max": ("max", RefMax),
 }
 
 
@@ -232,6 +313,16 @@ class Impl:
                     ii += 1
                     val = v[2] if v[1] is None else sigma[v[1]] + v[2]
                     ntr.append(("emit", ("int", val)))
+                elif x[0] == "emit" and isinstance(x[1], str) and x[1].startswith("tuple:") and "int" in x[1].split(":", 1)[1].split(","):
+                    parts = []
+                    for part in x[1].split(":", 1)[1].split(","):
+                        if part == "int" and ii < len(ints):
+                            v = ints[ii]
+                            ii += 1
+                            parts.append("int=%d" % (v[2] if v[1] is None else sigma[v[1]] + v[2]))
+                        else:
+                            parts.append(part)
+                    ntr.append(("emit", "tuple:" + ",".join(parts)))
                 else:
                     ntr.append(x)
             res.append((tuple(ntr), tr, tuple(sorted(ns.items())), p))
@@ -246,6 +337,8 @@ def _map_inputs(ref, syms, combo):
             inp["pred"] = v
         elif s.startswith("in:eq"):
             inp["eq"] = v
+        elif s in ("in:lt", "in:gt"):
+            inp[s[3:]] = v
     return inp
 
 
@@ -289,7 +382,9 @@ def _explore(r, impl, ref, root, name, hb):
     steps = 0
     nsyms = impl.input_syms("N")
     want = set(ref.inputs)
-    have = {"pred" if s == "in:pred" else "eq" for s in nsyms}
+    have = {"pred" if s == "in:pred" else (s[3:] if s in ("in:lt", "in:gt") else "eq") for s in nsyms}
+    if want & {"lt", "gt"} and have & {"lt", "gt"}:
+        have |= {"lt", "gt"}         # one ordered comparison is enough to decide a minimum / maximum
     if want - have:
         report("never consults " + "/".join(sorted(want - have)),
                "%s never consults the %s its definition depends on" % (name, " and ".join(sorted(want - have))), hb)
@@ -310,29 +405,40 @@ def _explore(r, impl, ref, root, name, hb):
                 continue
             for combo in product((False, True), repeat=len(nsyms)):
                 inputs = dict(zip(nsyms, combo))
-                rinp = _map_inputs(ref, nsyms, combo)
-                for k in ref.inputs:
-                    rinp.setdefault(k, False)
-                rtrace, rst2, rdone = ref.next(rst, rinp)
+                base = _map_inputs(ref, nsyms, combo)
+                # every valuation of the reference's inputs consistent with what the implementation asked
+                free = [k for k in ref.inputs if k not in base]
+                ref_inputs = []
+                for vals in product((False, True), repeat=len(free)):
+                    d2 = dict(base)
+                    d2.update(zip(free, vals))
+                    if d2.get("lt") and d2.get("gt"):
+                        continue                  # an item is not both smaller and greater
+                    ref_inputs.append(d2)
+                if not ref_inputs:
+                    continue
                 outs = impl.run("N", state, inputs, ref.extra)
                 if not outs:
                     raise Undecided("no feasible item path in state %s" % (state,))
-                for (ntr, raw, ns, p) in outs:
-                    steps += 1
+                for rinp in ref_inputs:
+                    rtrace, rst2, rdone = ref.next(rst, rinp)
+                    accept = [tuple(a) for a in rtrace] if isinstance(rtrace, ANY_OF) else [tuple(rtrace)]
                     label = ",".join("%s=%s" % (k, str(v).lower()) for k, v in sorted(rinp.items())) or "item"
-                    if ntr != tuple(rtrace):
-                        report("item step %s" % _shape(hist + (label,)),
-                               "%s: on an item with %s after %s the operator does %s; its definition says %s "
-                               "(extracted transition: guard %s)"
-                               % (name, label or "any value", _hist(hist), _fmt(ntr), _fmt(rtrace),
-                                  " && ".join(_show_b(x) for x in p.pc) or "true"), hb)
-                        continue
-                    if rdone:
-                        continue
-                    key = (ns, rst2)
-                    if key not in seen:
-                        seen.add(key)
-                        nxt.append((key, hist + (label,)))
+                    for (ntr, raw, ns, p) in outs:
+                        steps += 1
+                        if ntr not in accept:
+                            report("item step %s" % _shape(hist + (label,)),
+                                   "%s: on an item with %s after %s the operator does %s; its definition says %s "
+                                   "(extracted transition: guard %s)"
+                                   % (name, label or "any value", _hist(hist), _fmt(ntr), " or ".join(_fmt(a) for a in accept),
+                                      " && ".join(_show_b(x) for x in p.pc) or "true"), hb)
+                            continue
+                        if rdone:
+                            continue
+                        key = (ns, rst2)
+                        if key not in seen:
+                            seen.add(key)
+                            nxt.append((key, hist + (label,)))
         frontier = nxt
         if not frontier:
             break
